@@ -256,7 +256,7 @@ def case_docs(names, r):
     # a dynamic name `"a${x}"` is not a spelling of the literal name `a${x}`
     last = names[-1]
     k = last.find("${x}")
-    if k >= 0 and "${" not in last[:k] and "${" not in last[k + 4 :]:
+    if k >= 0 and "${" not in last[:k] and "${" not in last[k + 4 :] and names[0] != "x":  # (`x` is the helper binding of the document)
         raw = N.nix_quote(last[:k])[:-1] + "${x}" + N.nix_quote(last[k + 4 :])[1:]
         doc = '{ x = "k"; ' + spell(names[:-1], set()) + ("." if len(names) > 1 else "") + raw + " = 0; }"
         t = cst.parse(doc)
